@@ -8,7 +8,7 @@ ROOT = os.path.dirname(os.path.dirname(os.path.abspath(__file__)))
 T = {
  "C01": ("Coq inductive invariant over all histories of the model (escrow = pending fees + earnings) + differential correspondence of the extracted model with the real handler/EndBlocker on groups bank, oblig; also proved for histories with governance parameter changes (ReachP, C01_escrow_backed_param_changes)",
          "Proof (Coq): C01_escrow_backed is an invariant of every reachable state of the Gallina state machine, for all op sequences, amounts and legal parameter sets, also between the per-context handlers inside EndBlock. The model is tied to /repo by running the extracted model and the real code on the same generated histories and comparing balances, active-request fees and earned-fee records after every step; an implementation-only monitor recomputes the equality from raw store scans to find concrete failing histories.",
-         "Trusted: Coq kernel, extraction (ExtrOcamlBasic), harness + comparer, host guarantees of DESIGN 3.5; K3 (module-service call path) is outside the model and a recorded known finding.", "7 C01"),
+         "Trusted: Coq kernel, extraction (ExtrOcamlBasic), harness + comparer, host guarantees of DESIGN 3.5; K3 (module-service call path) is a recorded known finding; the path is inside the model as the operation XCallMod on top of step/pstep (DESIGN 12.10): compared with the code on W10, W10b..W10h and a shard of generated histories, excluded from the theorems over Reach/ReachP by the predicate k3_free, refuted on the model by C01_K3_escrow_refuted.", "7 C01"),
 }
 
 DEFAULT_NOTE = "Trusted: Coq 8.16.1 kernel, extraction (ExtrOcamlBasic only), OCaml driver, Go harness + comparer, translator for the key layer; host guarantees and exclusions of DESIGN.md 3.5; glue of DESIGN.md 3.6 is modelled, not verified."
